@@ -524,6 +524,15 @@ package commitlog
 //@   requires l != nil
 //@   assumes l.vActiveSegment != nil
 //@   call send.wait requires [end-announced-only-to-a-reader-with-the-current-watermark] !arg1 || l.hw == hw
+// notifyReadonly (the log has been made read-only): the end of the log is announced to the parked readers only when
+// the watermark has reached the log's newest offset - a reader parked below a watermark that still lags the log end
+// has committed messages coming and must stay parked until they are committed. The newest offset is that of the LOG
+// (the base offset of an active segment that is still empty counts), whatever the active segment holds
+//@ func (*commitLog).notifyReadonly serves C03
+//@   requires l != nil
+//@   assumes l.vActiveSegment != nil
+//@   call send.ch requires [the-end-is-announced-only-when-the-watermark-has-reached-the-log-end] arg1 && l.hw >= nextOffset(l) - 1
+//@   ensures [readers-below-a-lagging-watermark-stay-parked] old(l.hw) < old(nextOffset(l)) - 1 ==> l.hwWaiters == old(l.hwWaiters)
 //@ func (*commitLog).HighWatermark serves C03, C01
 //@   requires l != nil
 //@   modifies nothing
@@ -628,10 +637,21 @@ package commitlog
 //@   call Load requires [table-consulted-for-the-message's-own-key] arg1 == boxed(str(key))
 //@   call entriesForMessageSet requires [indexed-as-written] arg1 == ms && arg0 == cleaned.position
 //@   call WriteMessageSet requires [written-unchanged] arg0 == cleaned && arg1 == ms && arg2 == entries
+// (whatever way the index entries of a survivor are obtained: the survivor is indexed at the position of the CLEANED
+//  segment where it is written - lookups, reverse reads and the next compaction go through the index)
+//@   call WriteMessageSet requires [a-survivor-is-indexed-where-it-is-written] len(arg2) >= 1 && arg2[0] != nil && arg2[0].Position == cleaned.position && arg2[0].Offset == int64(be64(ms, 0))
 //@   call (*leaderEpochCache).Assign requires [epoch-of-survivor] arg1 == leaderEpoch && arg2 == offset
 //@   call (*segment).Replace requires [replaces-source] arg0 == cleaned && arg1 == seg
 //@   call cleanupEmptySegment requires [drops-source] arg0 == cleaned && arg1 == seg
 
+// (C08) what becomes of the SOURCE segment of a clean: whether the cleaned segment takes its place (Replace) or nothing
+// of it survived (cleanupEmptySegment), the source is flagged replaced - readers positioned in it are sent on to the
+// current segment list (see ReadAt) - and cleanSegment reports success only then
+//@ func cleanupEmptySegment serves C08
+//@   assumes new != nil && old != nil
+//@   ensures [readers-in-the-dropped-segment-are-sent-on] result == nil ==> old.replaced
+//@ func (*segment).Replace serves C08
+//@   ensures [readers-in-the-replaced-segment-are-sent-on] result == nil ==> old.replaced
 // compact: the newest segment is never cleaned and stays last; every other segment is cleaned with the same table and HW
 //@ func (*compactCleaner).compact serves C08
 //@   returns (compacted, epochCache, removed, err)
@@ -736,23 +756,27 @@ package commitlog
 // committedReader.Read, reader parked beyond the watermark: after the watermark moved, reading resumes at the
 // message after the OLD watermark - in the segment that holds it, at that message's entry - so nothing that
 // became committed is skipped; the reader's watermark only moves forward.
-//@ func (*committedReader).Read serves C03, C01
+//@ func (*committedReader).Read serves C03, C01, C10
 //@   requires r != nil && r.cl != nil
 //@   call (*segment).findEntry requires [resumes-after-old-hw] arg1 == old(r.hw) + 1
 //@   call (*segment).findEntry requires [in-the-segment-holding-it] forall k int :: 0 <= k && k < len(segments) && nextOf(segments[k]) > old(r.hw) + 1 && (forall i int :: 0 <= i && i < k ==> nextOf(segments[i]) <= old(r.hw) + 1) ==> arg0 == segments[k]
 //@   call getHWPos requires [limit-at-current-hw] arg1 == r.hw
-//@ func (*segment).ReadAt serves C03, C01
+//@ func (*segment).ReadAt serves C03, C01, C08
 //@   returns (n, err)
 //@   requires s != nil
 //@   assumes s.log != nil && fileSize(s.log) == s.position
 //@   ensures 0 <= n && n <= len(p)
 //@   ensures [no-end-of-file-within-the-log] off >= 0 && off + len(p) <= old(s.position) ==> err != io.EOF
+// (C08) a reader that is positioned in a segment which a compaction replaced - or dropped because nothing of it
+// survived - is told so (ErrSegmentReplaced, on which it positions itself anew in the current segment list) and is not
+// turned away with "segment closed": the messages behind it all survive
+//@   ensures [C08:a-reader-in-a-replaced-segment-is-told-so] old(s.closed) ==> err == (old(s.replaced) ? ErrSegmentReplaced : ErrSegmentClosed)
 // readLoop: in the watermark's segment a read never extends beyond the watermark's byte position
 //@ func min serves C03, C01
 //@   modifies nothing
 //@   ensures result == (x < y ? x : y)
 // (the caller, readMessage, ignores the byte count: a read that returns no error must have filled the buffer)
-//@ func (*committedReader).readLoop serves C03, C01
+//@ func (*committedReader).readLoop serves C03, C01, C10
 //@   returns (n, err)
 //@   ensures [a-read-fills-the-buffer-or-fails] err == nil ==> n == len(p)
 //@   requires r != nil && r.cl != nil && r.seg != nil
@@ -907,7 +931,7 @@ package commitlog
 
 // getHWPos: the byte position up to which a committed reader may read in the watermark's segment - it covers every
 // entry at or below the watermark and no entry above it (also when the message at the watermark itself is gone)
-//@ func getHWPos serves C03, C01
+//@ func getHWPos serves C03, C01, C10
 //@   returns (idx, pos, err)
 //@   assumes forall i int :: 0 <= i && i < len(segments) ==> segments[i] != nil && segments[i].Index != nil && segments[i].Index.position >= 0
 //@   assumes forall i int, j int :: 0 <= i && i < j && j < len(segments) ==> nextOf(segments[i]) <= nextOf(segments[j])
